@@ -28,11 +28,11 @@ h_extra_rows(tsk_table_collection_t *t, h_tables_t *Tp)
 {
     int j, ret;
     char nm[16];
-    (void) Tp;
     for (j = 0; j < NM; j++) {
         msite[j] = sym_choice(sym_nm(nm, "ms", j), j == 0 ? 0 : msite[j - 1], NS - 1);
         mnode[j] = sym_choice(sym_nm(nm, "mn", j), 0, NN - 1);
-        ret = tsk_mutation_table_add_row(&t->mutations, msite[j], mnode[j], -1, TSK_UNKNOWN_TIME, j % 2 ? "G" : "C", 1, NULL, 0);
+        /* a known mutation time (the time of its node): a mutation left on the wrong output node makes the output invalid */
+        ret = tsk_mutation_table_add_row(&t->mutations, msite[j], mnode[j], -1, Tp->time[mnode[j]], j % 2 ? "G" : "C", 1, NULL, 0);
         sym_assume(ret == j);
     }
 }
@@ -246,6 +246,9 @@ main_c04(void)
         chosen[samples[j]] = 1;
     }
     check_options(&t, &ts, TSK_SIMPLIFY_FILTER_SITES | TSK_SIMPLIFY_FILTER_POPULATIONS | TSK_SIMPLIFY_FILTER_INDIVIDUALS, 1);
+#ifdef ROOTS_PASS
+    check_options(&t, &ts, TSK_SIMPLIFY_FILTER_SITES | TSK_SIMPLIFY_KEEP_INPUT_ROOTS, 1);
+#endif
 #ifndef DEFAULT_OPTIONS_ONLY
     check_options(&t, &ts, TSK_SIMPLIFY_FILTER_SITES | TSK_SIMPLIFY_KEEP_UNARY, 0);
     check_options(&t, &ts, TSK_SIMPLIFY_FILTER_SITES | TSK_SIMPLIFY_KEEP_INPUT_ROOTS, 0);
